@@ -1,3 +1,4 @@
+import HcModel.Generated.WritePath
 import HcProofs.Lemmas.ConnWrite
 /-
   C08 — concurrent writers never corrupt the encrypted stream.
@@ -160,5 +161,18 @@ example : (run (init t0ex) schedEx).log = [⟨1, 0, 2048⟩, ⟨0, 0, 5⟩, ⟨2
 example : (run (init t0ex) schedEx).pc 0 = .idle ∧ (run (init t0ex) schedEx).todo 0 = [] := by decide
 example : ((accept ⟨init t0ex, []⟩ [.enter 1, .blocked 0, .sealed 1, .sock 1, .enter 0, .ret 1, .sealed 0] 0).toOption.map
     (·.s.ctr)) = some 3 := by decide
+
+
+/-- shape of the critical section: one lock acquisition first, released only by a deferred unlock (i.e. at return),
+    nonce allocation (Encrypt) and the socket write both inside, nothing spawned -/
+def lockRegionOk : List String → Bool
+  | "Lock" :: "deferUnlock" :: rest => rest.contains "Encrypt" && rest.contains "Write" &&
+      rest.all (fun s => s == "Encrypt" || s == "Write")
+  | _ => false
+
+/-- The source as it is now (Generated/WritePath.lean, go/ast over (*Connection).EncryptedWrite) has exactly the shape
+    of the locked writer program the theorems above are about: `Lock`, deferred `Unlock`, then Encrypt and the socket
+    write and nothing else — in particular no unlock before the write, no read-lock, no try-lock, no goroutine. -/
+theorem lock_region_regenerated : lockRegionOk Hc.Generated.writePath = true := by decide
 
 end Hc.Props.C08
